@@ -247,8 +247,10 @@ def pageStart (sv : Saved) (ctrls : List RCtl) (s : Stream) : Stream × StartOut
                         pages := s.pages, reqs := s.reqs, scrubs := s.scrubs }
   let (_, t, r) := start [] tmp sv.q
   match r with
-  | .ok => ({ s with h := t.h, rx := t.rx, pages := t.pages, reqs := t.reqs, scrubs := t.scrubs }, r)
-  | .err _ => ({ s with pages := t.pages, reqs := t.reqs, scrubs := t.scrubs }, r)
+  -- `stream.res = None` before the follow-up search is submitted: the previous page's result is not the
+  -- result of the Search (fix F23); on success `stream.ldap` and `stream.rx` are replaced
+  | .ok => ({ s with h := t.h, rx := t.rx, res := none, pages := t.pages, reqs := t.reqs, scrubs := t.scrubs }, r)
+  | .err _ => ({ s with res := none, pages := t.pages, reqs := t.reqs, scrubs := t.scrubs }, r)
 
 mutual
 /-- `SearchStream::next` at adapter index `ax`; `top` ⇔ `ax == 0`, `chain` = `adapters[ax..]` -/
